@@ -12,7 +12,7 @@ def prefix_key(hist):
     return json.dumps(hist, sort_keys=True)
 
 
-DEFAULTS = {"NormDrop": {"Nested": False, "Eps": [1, 100000]}}      # constants added later: configurations written before them keep their meaning
+DEFAULTS = {"NormDrop": {"Nested": False, "Eps": [1, 100000]}, "Modules": {"InitTree": "empty"}}      # constants added later: configurations written before them keep their meaning
 
 
 def model_check(report, module, name, consts, invariants, properties=(), workers=16, timeout=3000, spec=None, constraints=(),
